@@ -178,7 +178,11 @@ int xmpp_stanza_release(xmpp_stanza_t *stanza)
         while (child) {
             tchild = child;
             child = child->next;
+            /* the child may outlive this stanza (the user may hold a reference):
+               it must not keep pointers into the freed tree */
             tchild->next = NULL;
+            tchild->prev = NULL;
+            tchild->parent = NULL;
             xmpp_stanza_release(tchild);
         }
 
